@@ -121,6 +121,34 @@ def enable_call_defaults(ctx: Ctx, pid: str):
                       required="Methods.__call__ forwards its enable_call to the method it calls")
 
 
+def module_connector(ctx: Ctx, pid: str):
+    """The schedulers of all conflict components (and the per-stage modules of several library components) are handed to the
+    design through ModuleConnector: it must add EVERY positional and EVERY named argument as a submodule, unconditionally - a
+    scheduler that is not elaborated leaves the run signals of its component undriven (its transactions never run)."""
+    from ..comp import Component
+    from ..pyfacts import loops, py_guard
+    from ..stage import Submodule
+    from ..term import tstr
+
+    rel = "transactron/utils/amaranth_ext/elaboratables.py"
+    rule = f"{pid}.module-connector"
+    ctx.use(rel)
+    comp = Component(ctx.repo, rel, "ModuleConnector", rule=rule)
+    ok = len(comp.configs) == 1
+    detail = []
+    for ex in comp.configs:
+        subs = ex.of(Submodule)
+        pos = [s for s in subs if len(loops(s)) == 1 and loops(s)[0][1] == ("a", ("self",), "args") and s.value == loops(s)[0][0][0] and py_guard(s) is True]
+        named = [s for s in subs if len(loops(s)) == 1 and loops(s)[0][1] == ("call", ("a", ("a", ("self",), "kwargs"), "items"), (), ())
+                 and ((len(loops(s)[0][0]) == 2 and s.value == loops(s)[0][0][1] and s.name == loops(s)[0][0][0])
+                      or (len(loops(s)[0][0]) == 1 and s.value == ("i", loops(s)[0][0][0], ("c", 1)) and s.name == ("i", loops(s)[0][0][0], ("c", 0))))
+                 and py_guard(s) is True]
+        ok = ok and len(pos) == 1 and len(named) == 1 and len(subs) == 2
+        detail.append("; ".join(f"submodules[{tstr(s.name)}] = {tstr(s.value)} over {[tstr(l[1]) for l in loops(s)]}" for s in subs))
+    ctx.check(ok, rule, comp.site if hasattr(comp, "site") else rel, "ModuleConnector.elaborate", found=" | ".join(detail)[:300],
+              required="every element of args becomes an anonymous submodule and every item of kwargs a named one, unconditionally")
+
+
 def scheduler_consults_order(ctx: Ctx, pid: str):
     rule = f"{pid}.scheduler-consults-order"
     fns = [f for f in _module_functions(ctx, SCHED) if len(f.args.posonlyargs + f.args.args) == 4 and not f.args.vararg]
